@@ -757,3 +757,213 @@ Example delta32_roundtrip_minmax :
   let vs := [2 ^ 31; 2 ^ 31 - 1; 2 ^ 31; 2 ^ 31 - 1; 0; 2 ^ 32 - 1] in
   delta_decode_int32 (delta_bytes_int32 vs) 6 = Ok (vs, len (delta_bytes_int32 vs)).
 Proof. vm_compute. reflexivity. Qed.
+
+(** ** Part D: capacity checks, zero values, other geometries *)
+Lemma enc_blocks_cap_ok n : forall ds pos cap bs, enc_blocks_cap n ds pos cap = Ok bs -> bs = enc_blocks n ds.
+Proof.
+  induction n; intros ds pos cap bs H; cbn [enc_blocks_cap enc_blocks] in *; [injection H as <-; reflexivity|].
+  destruct ds as [|d0 t]; [injection H as <-; reflexivity|].
+  destruct (block_parts (firstn (N.to_nat BLOCK) (d0 :: t))) as [[m ws] body].
+  destruct (cap <? _); [discriminate|].
+  destruct (enc_blocks_cap n _ _ cap) as [more|c|e] eqn:E; try discriminate.
+  injection H as <-. rewrite (IHn _ _ _ _ E). reflexivity.
+Qed.
+
+(** whenever the encoder reports success, it wrote exactly [delta_bytes_*] *)
+Theorem delta_encode_int64_ok vs cap bs : delta_encode_int64 vs cap = Ok bs -> bs = delta_bytes_int64 vs.
+Proof.
+  destruct vs as [|v0 t]; cbn [delta_encode_int64 delta_bytes_int64]; [intros H; injection H as <-; reflexivity|].
+  unfold delta_encode_gen. destruct (cap <? 40); [discriminate|].
+  destruct (enc_blocks_cap _ _ _ cap) as [more|c|e] eqn:E; try discriminate.
+  intros H. injection H as <-. rewrite (enc_blocks_cap_ok _ _ _ _ _ E). reflexivity.
+Qed.
+
+Theorem delta_encode_int32_ok vs cap bs : delta_encode_int32 vs cap = Ok bs -> bs = delta_bytes_int32 vs.
+Proof.
+  destruct vs as [|v0 t]; cbn [delta_encode_int32 delta_bytes_int32]; [intros H; injection H as <-; reflexivity|].
+  unfold delta_encode_gen. destruct (cap <? 40); [discriminate|].
+  destruct (enc_blocks_cap _ _ _ cap) as [more|c|e] eqn:E; try discriminate.
+  intros H. injection H as <-. rewrite (enc_blocks_cap_ok _ _ _ _ _ E). reflexivity.
+Qed.
+
+(** zero values: the encoders write nothing, and the decoders need a header even for zero values *)
+Theorem delta_empty_encode cap : delta_encode_int64 [] cap = Ok [] /\ delta_encode_int32 [] cap = Ok [].
+Proof. split; reflexivity. Qed.
+
+Theorem delta_empty_decode : delta_decode_int64 [] 0 = Err ERR_DECODE /\ delta_decode_int32 [] 0 = Err ERR_DECODE.
+Proof. split; reflexivity. Qed.
+
+(** other legal block geometries are refused, not mis-decoded (header fields below 2^31: they are read into int32_t) *)
+Theorem delta_other_geometry_rejected bs block minis r1 r2 : bytes bs ->
+  read_uleb bs = Some (block, r1) -> read_uleb r1 = Some (minis, r2) ->
+  legal_geometry block minis = true -> block < 2 ^ 31 -> minis < 2 ^ 31 -> (block, minis) <> (128, 4) ->
+  delta_init bs = Err ERR_DECODE.
+Proof.
+  intros Hb R1 R2 LG Hbl Hmi Hne.
+  assert (B1 : bytes r1) by (destruct (read_uleb_suffix _ _ _ R1) as [p [E _]]; rewrite E in Hb; eapply bytes_app_r; exact Hb).
+  unfold delta_init. rewrite (uleb_dec_read _ _ _ Hb R1), (uleb_dec_read _ _ _ B1 R2).
+  unfold legal_geometry in LG. apply andb_prop in LG. destruct LG as [LG G5].
+  apply andb_prop in LG. destruct LG as [LG G4]. apply andb_prop in LG. destruct LG as [LG G3].
+  apply andb_prop in LG. destruct LG as [G1 G2].
+  apply negb_true_iff in G1. apply negb_true_iff in G3.
+  apply N.eqb_neq in G1. apply N.eqb_neq in G3. apply N.eqb_eq in G2. apply N.eqb_eq in G4. apply N.eqb_eq in G5.
+  assert (P1 : pos_i32 minis = Some minis).
+  { unfold pos_i32. rewrite u32_mod, N.mod_small by (eapply N.lt_trans; [exact Hmi|reflexivity]).
+    assert (E : ((0 <? minis) && (minis <? 2 ^ 31)) = true) by (apply andb_true_intro; split; apply N.ltb_lt; lia).
+    rewrite E. reflexivity. }
+  assert (P2 : pos_i32 block = Some block).
+  { unfold pos_i32. rewrite u32_mod, N.mod_small by (eapply N.lt_trans; [exact Hbl|reflexivity]).
+    assert (E : ((0 <? block) && (block <? 2 ^ 31)) = true) by (apply andb_true_intro; split; apply N.ltb_lt; lia).
+    rewrite E. reflexivity. }
+  rewrite P1. change MINIS with 4. change BLOCK with 128. change MINI_SIZE with 32.
+  destruct (4 <? minis) eqn:E4; [reflexivity|]. apply N.ltb_ge in E4. rewrite P2.
+  destruct (128 <? block) eqn:E128; [reflexivity|]. apply N.ltb_ge in E128.
+  assert (block = 128) as -> by lia.
+  assert (D : minis = 1 \/ minis = 2 \/ minis = 3 \/ minis = 4) by lia.
+  destruct D as [D|[D|[D|D]]]; subst minis; try reflexivity.
+  contradiction Hne. reflexivity.
+Qed.
+
+(** ** Part E: the decoders never fault, and return exactly [count] values *)
+Definition nofault {A} (r : res A) : Prop := forall f, r <> Fault f.
+
+Lemma read_mini_nofault mbs w md rest : nofault (read_mini mbs w md rest).
+Proof.
+  intros f. unfold read_mini. destruct (w =? 0); [discriminate|]. destruct (64 <? w); [discriminate|].
+  destruct (len rest <? packed_size mbs w) eqn:E; [discriminate|]. apply N.ltb_ge in E.
+  rewrite take_some by (unfold len in E; lia). discriminate.
+Qed.
+
+Lemma read_mini_length mbs w md rest dl rest' : read_mini mbs w md rest = Ok (dl, rest') -> length dl = N.to_nat mbs.
+Proof.
+  unfold read_mini. destruct (w =? 0); [intros H; injection H as <- <-; apply repeat_length|].
+  destruct (64 <? w); [discriminate|]. destruct (len rest <? packed_size mbs w); [discriminate|].
+  destruct (take _ rest) as [[bs r]|]; [|discriminate]. intros H. injection H as <- <-.
+  rewrite map_length, unpack_f_eq. apply to_base_length.
+Qed.
+
+Lemma sums_length L ds : length (fst (sums L ds)) = length ds.
+Proof.
+  revert L. induction ds as [|d t IH]; intros L; [reflexivity|]. cbn [sums]. specialize (IH (u64 (L + d))).
+  destruct (sums (u64 (L + d)) t). cbn [fst length] in *. lia.
+Qed.
+
+Lemma dec_minis_nofault mbs md : forall ws rest last r,
+  nofault (dec_minis mbs md ws rest last r) /\
+  forall vals rest' last' r', dec_minis mbs md ws rest last r = Ok (vals, rest', last', r') ->
+    (length vals + r' = r)%nat /\ (ws <> [] -> (0 < r)%nat -> (r' < r)%nat).
+Proof.
+  induction ws as [|w ws' IH]; intros rest last r.
+  - split; [intros f; discriminate|]. intros vals rest' last' r' H. cbn in H. injection H as <- <- <- <-.
+    split; [reflexivity|]. intros Q; contradiction.
+  - cbn [dec_minis]. destruct r as [|r0].
+    + split; [intros f; discriminate|]. intros vals rest' last' r' H. injection H as <- <- <- <-. split; [reflexivity|lia].
+    + pose proof (read_mini_nofault mbs w md rest) as NF.
+      destruct (read_mini mbs w md rest) as [[dl rest1]|c|e] eqn:RM.
+      * set (ds' := if mbs =? 0 then [0] else dl).
+        assert (Lp : (0 < length ds')%nat).
+        { unfold ds'. destruct (N.eqb_spec mbs 0) as [E|E]; [cbn; lia|].
+          rewrite (read_mini_length _ _ _ _ _ _ RM). lia. }
+        pose proof (sums_length last (firstn (S r0) ds')) as SL.
+        destruct (sums last (firstn (S r0) ds')) as [vals1 last1] eqn:S1. cbn [fst] in SL.
+        destruct (IH rest1 last1 (S r0 - length (firstn (S r0) ds'))%nat) as [NF2 OK2].
+        destruct (dec_minis mbs md ws' rest1 last1 _) as [[[[more rest2] l2] r2]|c|e] eqn:DM.
+        -- split; [intros f; discriminate|]. intros vals rest' last' r' H. injection H as <- <- <- <-.
+           destruct (OK2 _ _ _ _ eq_refl) as [A _]. rewrite app_length, SL. rewrite firstn_length in *. lia.
+        -- split; [intros f; discriminate|]. intros; discriminate.
+        -- exfalso. apply (NF2 e). reflexivity.
+      * split; [intros f; discriminate|]. intros; discriminate.
+      * exfalso. apply (NF e). reflexivity.
+Qed.
+
+Lemma dec_blocks_nofault mbs mbpb : 0 < mbpb -> forall fuel rest last r, (r <= fuel)%nat ->
+  nofault (dec_blocks fuel mbs mbpb rest last r) /\
+  forall vals rest', dec_blocks fuel mbs mbpb rest last r = Ok (vals, rest') -> length vals = r.
+Proof.
+  intros Hm. induction fuel; intros rest last r Hf.
+  - destruct r; [|lia]. split; [intros f; discriminate|]. intros vals rest' H. injection H as <- <-. reflexivity.
+  - destruct r as [|r0].
+    + split; [intros f; discriminate|]. intros vals rest' H. cbn in H. injection H as <- <-. reflexivity.
+    + cbn [dec_blocks]. destruct rest as [|b0 rt]; [split; [intros f; discriminate|intros; discriminate]|].
+      destruct (uleb_dec (b0 :: rt)) as [[zz rest1]|]; [|split; [intros f; discriminate|intros; discriminate]].
+      destruct (len rest1 <? mbpb) eqn:E; [split; [intros f; discriminate|intros; discriminate]|].
+      apply N.ltb_ge in E. rewrite take_some by (unfold len in E; lia).
+      assert (Hws : firstn (N.to_nat mbpb) rest1 <> []).
+      { intros Q. apply (f_equal (@length N)) in Q. rewrite firstn_length in Q. unfold len in E. cbn [length] in Q. lia. }
+      destruct (dec_minis_nofault mbs (zigzag_dec zz) (firstn (N.to_nat mbpb) rest1) (skipn (N.to_nat mbpb) rest1) last (S r0))
+        as [NF OK].
+      destruct (dec_minis mbs (zigzag_dec zz) _ _ last (S r0)) as [[[[vals1 rest3] l1] r1]|c|e] eqn:DM.
+      * destruct (OK _ _ _ _ eq_refl) as [A B]. specialize (B Hws ltac:(lia)).
+        destruct (IHfuel rest3 l1 r1 ltac:(lia)) as [NF2 OK2].
+        destruct (dec_blocks fuel mbs mbpb rest3 l1 r1) as [[more rest4]|c|e] eqn:DB.
+        -- split; [intros f; discriminate|]. intros vals rest' H. injection H as <- <-.
+           rewrite app_length, (OK2 _ _ eq_refl). lia.
+        -- split; [intros f; discriminate|intros; discriminate].
+        -- exfalso. apply (NF2 e). reflexivity.
+      * split; [intros f; discriminate|intros; discriminate].
+      * exfalso. apply (NF e). reflexivity.
+Qed.
+
+Lemma delta_init_nofault data : nofault (delta_init data) /\
+  forall h, delta_init data = Ok h -> 0 < h_mbpb h.
+Proof.
+  unfold delta_init.
+  destruct (uleb_dec data) as [[bsz r1]|]; [|split; [intros f; discriminate|intros; discriminate]].
+  destruct (uleb_dec r1) as [[mb r2]|]; [|split; [intros f; discriminate|intros; discriminate]].
+  destruct (pos_i32 mb) as [mbpb|] eqn:P; [|split; [intros f; discriminate|intros; discriminate]].
+  assert (Hp : 0 < mbpb).
+  { unfold pos_i32 in P. destruct ((0 <? u32 mb) && (u32 mb <? 2 ^ 31)) eqn:E; [|discriminate].
+    injection P as <-. apply andb_prop in E. destruct E as [E _]. apply N.ltb_lt in E. exact E. }
+  destruct (MINIS <? mbpb); [split; [intros f; discriminate|intros; discriminate]|].
+  destruct (pos_i32 bsz) as [block|]; [|split; [intros f; discriminate|intros; discriminate]].
+  destruct (BLOCK <? block); [split; [intros f; discriminate|intros; discriminate]|].
+  destruct (MINI_SIZE <? block / mbpb); [split; [intros f; discriminate|intros; discriminate]|].
+  destruct (uleb_dec r2) as [[tot r3]|]; [|split; [intros f; discriminate|intros; discriminate]].
+  destruct (uleb_dec r3) as [[fz r4]|]; [|split; [intros f; discriminate|intros; discriminate]].
+  split; [intros f; discriminate|]. intros h H. injection H as <-. exact Hp.
+Qed.
+
+(** C08: DELTA_BINARY_PACKED decoders: no read outside the input, exactly [count] values written on success, consumed
+    bytes within the input *)
+Theorem delta64_decode_never_faults data count : forall f, delta_decode_int64 data count <> Fault f.
+Proof.
+  unfold delta_decode_int64. destruct (delta_init_nofault data) as [NF HP].
+  destruct (delta_init data) as [h|c|e] eqn:DI; [|intros f; discriminate|exfalso; apply (NF e); reflexivity].
+  destruct (count =? 0); [intros f; discriminate|]. destruct (h_total h <=? 0)%Z; [intros f; discriminate|].
+  set (m := N.min count (Z.to_N (h_total h))).
+  destruct (dec_blocks_nofault (h_mbs h) (h_mbpb h) (HP h eq_refl) (N.to_nat m) (h_rest h) (h_first h) (N.to_nat m - 1) ltac:(lia))
+    as [NF2 _].
+  destruct (dec_blocks _ _ _ _ _ _) as [[vals rest]|c|e]; [|intros f; discriminate|exfalso; apply (NF2 e); reflexivity].
+  destruct (_ <? count); intros f; discriminate.
+Qed.
+
+Theorem delta64_decode_result_size data count vals c : delta_decode_int64 data count = Ok (vals, c) ->
+  len vals = count /\ c <= len data.
+Proof.
+  unfold delta_decode_int64. destruct (delta_init_nofault data) as [NF HP].
+  destruct (delta_init data) as [h|c0|e] eqn:DI; try discriminate.
+  destruct (N.eqb_spec count 0) as [E0|E0].
+  - intros H. injection H as <- <-. subst. split; [reflexivity|lia].
+  - destruct (h_total h <=? 0)%Z eqn:ET; [discriminate|]. apply Z.leb_gt in ET.
+    set (m := N.min count (Z.to_N (h_total h))).
+    destruct (dec_blocks_nofault (h_mbs h) (h_mbpb h) (HP h eq_refl) (N.to_nat m) (h_rest h) (h_first h) (N.to_nat m - 1) ltac:(lia))
+      as [_ OK].
+    destruct (dec_blocks _ _ _ _ _ _) as [[vs rest]|c1|e]; try discriminate.
+    destruct (Z.to_N (h_total h) <? count) eqn:E; [discriminate|]. apply N.ltb_ge in E.
+    intros H. injection H as <- <-. specialize (OK _ _ eq_refl). split; [|lia].
+    unfold len. cbn [length]. rewrite OK. unfold m. lia.
+Qed.
+
+Theorem delta32_decode_never_faults data count : forall f, delta_decode_int32 data count <> Fault f.
+Proof.
+  intros f. unfold delta_decode_int32. pose proof (delta64_decode_never_faults data count) as NF.
+  destruct (delta_decode_int64 data count) as [[vs c]|c|e]; try discriminate. intros Q. apply (NF e). reflexivity.
+Qed.
+
+Theorem delta32_decode_result_size data count vals c : delta_decode_int32 data count = Ok (vals, c) ->
+  len vals = count /\ c <= len data.
+Proof.
+  unfold delta_decode_int32. destruct (delta_decode_int64 data count) as [[vs c0]|c0|e] eqn:D; try discriminate.
+  intros H. injection H as <- <-. destruct (delta64_decode_result_size _ _ _ _ D) as [A B].
+  split; [unfold len in *; rewrite map_length; exact A|exact B].
+Qed.
